@@ -95,7 +95,7 @@ EXTRA = {
     "C07": "Clause after_history: the same identities and the step limit on a model whose grid went through a generated history of extension, re-mesh, automatic adjustment and restoring recorded states. Thorough tier adds the atheris-driven campaign on the transport clauses.",
     "C08": "Thorough tier adds the atheris-driven campaign on the history clause.",
     "C09": "Clause model_cache: cache settings made on a diffusion model (useCache, setHashSensitivity) followed through clearCache and reset+setup, observed at the logging stub backend (with caching off every node reaches the backend; a node served from the cache has an earlier evaluation within one unit of the configured precision). Clause diffusivity_phase_sequences: diffusivity queries with the phase keyword (absent / matrix / second phase) and removeCache on/off on Fe-Cr-Ni objects with two mobility phases, each answer compared with a cache-free object.",
-    "C10": "Two of the ten fields list the elements in an order that is a cyclic rotation of the alphabetical one. A quarter of the points carry mobility correction factors (setMobilityCorrection, all elements and/or single ones): every relation must hold for the corrected mobilities, and the tracer diffusivities must be the uncorrected ones times the factors.",
+    "C10": "Two of the eleven fields list the elements in an order that is a cyclic rotation of the alphabetical one; in one the queried phase is the second listed phase (addressed through the phase keyword). A quarter of the points carry mobility correction factors (setMobilityCorrection, all elements and/or single ones): every relation must hold for the corrected mobilities, and the tracer diffusivities must be the uncorrected ones times the factors.",
     "C11": "The element-order queries draw all four driving-force methods; the phase-order clause includes ternary two-phase scenarios (multicomponent growth path) and judges the permuted run against an envelope from three runs perturbed by a few ulp.",
     "C01": "A third of the toy binary phases have a precipitate composition that depends on the Gibbs-Thomson energy (size-dependent), judged against the model's own per-edge table like the gamma prime runs.",
     "C12": "Clause model_rcrit_ramp: the growth-sign invariant on temperature ramps, judged against the range of critical radii within maxTempChange of the current temperature; the constant-temperature clause also changes an interfacial/grain-boundary energy, resets and re-runs the same model.",
